@@ -11,7 +11,8 @@ TypeError on the pinned tree).  `forms_baseline.json` (committed; recorded on th
 lists, per function.parameter:from->to, the representations that are rejected there and with which exception.  Verdicts:
   * twin returns        -> must equal the canonical result                    (monitor forms.equal)
   * twin raises         -> fine if the baseline lists that rejection; a representation the baseline lists as accepted
-                           (or the all-keyword call) that now raises TypeError/ValueError is reported  (monitor forms.accepted)
+                           (or the all-keyword call) that now raises is only counted (coverage bin), never a verdict: acceptance can
+                           depend on the other arguments
   * key unknown to the baseline -> counted in coverage bin forms.unknown, no verdict.
 A third kind of twin needs no baseline: the *identical* call made a second time (same argument objects, same RNG state) must
 return the same values (monitor forms.repeat) — state left behind by the first call, or an argument it modified, shows here.
@@ -462,9 +463,10 @@ def make_layer(ctx, qual, period=PERIOD):
                         elif any(o.startswith("raises:") for o in exp):
                             ctx.bin("forms.rejected_as_on_pinned_tree", key)
                         else:
-                            with core.monitor_scope():
-                                ctx.check("forms.accepted", False, f"{qual}: argument `{pname}` given as {lab.split('->')[1]} instead of {lab.split('->')[0]} is now rejected ({type(e).__name__}: {str(e)[:120]}); "
-                                          "the pinned tree accepts this representation", key=key)
+                            # no verdict: whether a representation is accepted can depend on the OTHER arguments (PRBS(order=np.int32(7))
+                            # is fine with an ordinary seed and a TypeError with a 20000-bit one, on the pinned tree too) — thorough tier,
+                            # seed 5, raised a false alarm here when this was still a check
+                            ctx.bin("forms.rejected_although_listed_as_accepted", key)
                     return r
                 with core.monitor_scope():
                     if "RV_FORMS_RECORD" in os.environ:
